@@ -41,8 +41,12 @@ class Lib:
             p = self.by_id[p]["parent"]
         return out
 
+    def name(self, cid):
+        """Modelica name of a class: its id unless a shadowing name was given (add_shadow)."""
+        return self.by_id[cid].get("name", cid)
+
     def path(self, cid):
-        return list(reversed(self.ancestors(cid))) + [cid]
+        return [self.name(x) for x in list(reversed(self.ancestors(cid))) + [cid]]
 
     def bases(self, cid):
         """Transitive base classes."""
@@ -52,11 +56,49 @@ class Lib:
             out += self.bases(e["cls"])
         return out
 
-    def ref_text(self, frm, target):
+    def nested(self, cid, inherited=True):
+        """{name: id} of the classes that are elements of class cid (own, then inherited)."""
+        out = {}
+        for k in self.children(cid):
+            out.setdefault(self.name(k["id"]), k["id"])
+        if inherited:
+            for b in self.bases(cid):
+                for k in self.children(b):
+                    out.setdefault(self.name(k["id"]), k["id"])
+        return out
+
+    def resolve(self, frm, parts, for_extends=False):
+        """Modelica lookup of a class name written in class frm: first identifier in frm and its
+        enclosing scopes (own and inherited elements; a class's own extends clauses are looked up
+        without its inherited elements), the rest as elements of what was found."""
+        cur = None
+        for i, s in enumerate([frm] + self.ancestors(frm)):
+            vis = self.nested(s, inherited=not (for_extends and i == 0))
+            if parts[0] in vis:
+                cur = vis[parts[0]]
+                break
+        else:
+            for c in self.data["classes"]:
+                if c["parent"] is None and self.name(c["id"]) == parts[0]:
+                    cur = c["id"]
+                    break
+        for part in parts[1:]:
+            if cur is None:
+                return None
+            cur = self.nested(cur).get(part)
+        return cur
+
+    def ref_text(self, frm, target, for_extends=False):
         """How class `frm` spells a reference to class `target` (Modelica lookup:
         own/inherited nested classes, enclosing scopes, then global)."""
         if target in BUILTIN:
             return target
+        if any("name" in c for c in self.data["classes"]):
+            # shadowed names: the shortest spelling that really denotes the target
+            for parts in ([self.name(target)], self.path(target)):
+                if self.resolve(frm, parts, for_extends) == target:
+                    return ".".join(parts)
+            raise LookupError("%s cannot name %s" % (frm, target))
         tp = self.by_id[target]["parent"]
         if tp is None:
             return target
@@ -67,6 +109,28 @@ class Lib:
         if tp in visible_parents:
             return target
         return ".".join(self.path(target))
+
+    def valid_names(self):
+        """No two elements of a class (own or inherited nested classes, top level) share a name,
+        and every class reference can be spelled."""
+        tops = [self.name(c["id"]) for c in self.data["classes"] if c["parent"] is None]
+        if len(tops) != len(set(tops)):
+            return False
+        for c in self.data["classes"]:
+            ids = {k["id"] for k in self.children(c["id"])}
+            for b in self.bases(c["id"]):
+                ids |= {k["id"] for k in self.children(b)}
+            names = [self.name(i) for i in ids]
+            if len(names) != len(set(names)):
+                return False
+            try:
+                for e in c.get("extends", []):
+                    self.ref_text(c["id"], e["cls"], for_extends=True)
+                for comp in c.get("comps", []):
+                    self.ref_text(c["id"], comp["cls"])
+            except LookupError:
+                return False
+        return True
 
     def models(self):
         return [c["id"] for c in self.data["classes"] if c["kind"] == "model"]
@@ -173,8 +237,8 @@ def print_class(lib, cid, ind="", spelling="nested", skip_children=()):
         m = ""
         if c.get("mods"):
             m = "(" + mods_nested(c["mods"], "nested") + ")"
-        return ind + "type %s = %s%s;\n" % (cid, c["base"], m)
-    out = ind + "%s %s\n" % (c["kind"], cid)
+        return ind + "type %s = %s%s;\n" % (lib.name(cid), c["base"], m)
+    out = ind + "%s %s\n" % (c["kind"], lib.name(cid))
     for k in lib.children(cid):
         if k["id"] in skip_children:
             continue
@@ -183,7 +247,7 @@ def print_class(lib, cid, ind="", spelling="nested", skip_children=()):
         m = ""
         if e.get("mods"):
             m = "(" + mods_nested(e["mods"], spelling) + ")"
-        out += ind + "  extends %s%s;\n" % (lib.ref_text(cid, e["cls"]), m)
+        out += ind + "  extends %s%s;\n" % (lib.ref_text(cid, e["cls"], for_extends=True), m)
     for comp in c.get("comps", []):
         out += ind + "  " + print_comp(lib, cid, comp, spelling) + "\n"
     if c.get("ieqs"):
@@ -196,7 +260,7 @@ def print_class(lib, cid, ind="", spelling="nested", skip_children=()):
             out += ind + "  " + print_eq(q) + "\n"
         for a, b in c.get("connects", []):
             out += ind + "  connect(%s, %s);\n" % (a, b)
-    out += ind + "end %s;\n" % cid
+    out += ind + "end %s;\n" % lib.name(cid)
     return out
 
 
@@ -433,6 +497,113 @@ def library(draw, opts=None):
     if not any(k["kind"] == "model" for k in classes):
         make_class(None, [], "model", 0)
     return {"classes": classes}
+
+
+def shadows_toplevel(data):
+    """A nested class carries the name of a top-level class."""
+    lib = Lib(data)
+    tops = {lib.name(c["id"]) for c in data["classes"] if c["parent"] is None}
+    return any("name" in c and c["parent"] is not None and c["name"] in tops for c in data["classes"])
+
+
+@st.composite
+def add_shadow(draw, data, allow_toplevel=True, on_exclude=None):
+    """Give one nested class the name of a class of another scope (shadowing), preferably one that
+    a class inheriting the nested class also refers to.  Returns True when a name was given; the
+    library stays as it was when no legal choice exists."""
+    lib = Lib(data)
+    pairs, hot = [], []
+    skipped = False
+    nestable = [c for c in data["classes"] if c["parent"] is not None and c["kind"] in ("model", "type")]
+    for x in nestable:
+        holders = [d["id"] for d in data["classes"] if x["parent"] == d["id"] or x["parent"] in lib.bases(d["id"])]
+        used = set()
+        for d in holders:
+            for k in [d] + lib.bases(d):
+                used |= {e["cls"] for e in lib.cls(k).get("extends", [])} | {c["cls"] for c in lib.cls(k).get("comps", [])}
+        for y in data["classes"]:
+            if y["id"] == x["id"] or y["kind"] == "package" or y["parent"] == x["parent"] or y["id"] in lib.ancestors(x["id"]):
+                continue
+            if y["parent"] is None and not allow_toplevel:
+                skipped = True
+                continue
+            (hot if y["id"] in used else pairs).append((x["id"], y["id"]))
+    if skipped and on_exclude:
+        on_exclude("shadowed_toplevel_class")
+    pool = hot if hot and draw(st.integers(0, 4)) != 0 else hot + pairs
+    if not pool:
+        return False
+    x, y = draw(st.sampled_from(pool))
+    lib.cls(x)["name"] = lib.name(y)
+    if not lib.valid_names():
+        del lib.cls(x)["name"]
+        return False
+    return True
+
+
+@st.composite
+def shadow_gadget(draw, data, allow_toplevel=True, on_exclude=None):
+    """Append a small group of classes in which a nested class carries the name of a class of the
+    enclosing scope that another base class (or the derived class's other base) uses:
+        [package GP]  model GY ..;  model GB1 model GX(name GY) ..; GX r1; end GB1;
+        model GB2 GY r2; ..;  model GM extends GB1; extends GB2; .. (either order / own nested class)
+    Returns the id of the class to flatten."""
+    classes = data["classes"]
+    cont = None
+    packaged = draw(st.booleans())
+    if not packaged and not allow_toplevel:
+        packaged = True
+        if on_exclude:
+            on_exclude("shadowed_toplevel_class")
+    if packaged:
+        cont = "GP"
+        classes.append({"id": "GP", "parent": None, "kind": "package"})
+
+    def real(name, **kw):
+        c = {"name": name, "cls": "Real", "prefixes": [], "dims": [], "mods": [], "value": None}
+        c.update(kw)
+        return c
+
+    def model(cid, parent, comps, eqs, extends=()):
+        classes.append({"id": cid, "parent": parent, "kind": "model", "extends": [{"cls": b, "mods": []} for b in extends],
+                        "comps": comps, "eqs": eqs, "ieqs": []})
+
+    y_alias = draw(st.integers(0, 3)) == 0
+    if y_alias:
+        classes.append({"id": "GY", "parent": cont, "kind": "type", "base": "Real", "mods": []})
+        y_leaf = "r2"
+    else:
+        model("GY", cont, [real("gy1"), real("gy2", prefixes=["parameter"], value=["int", 2])],
+              [[["var", "gy1"], ["bin", "*", ["int", 3], ["var", "gy2"]]]])
+        y_leaf = "r2.gy1"
+    variant = draw(st.sampled_from(["two_bases", "two_bases", "two_bases_swapped", "own_nested"]))
+    holder = "GM" if variant == "own_nested" else "GB1"
+    if variant != "own_nested":
+        model("GB1", cont, [], [])
+    else:
+        model("GM", cont, [], [], extends=["GB2"])  # completed below (GB2 is created after it: only printing order)
+    model("GX", holder, [real("gx1"), real("gx2")], [[["var", "gx1"], ["bin", "+", ["var", "gx2"], ["int", 1]]]])
+    by = {c["id"]: c for c in classes}
+    by["GX"]["name"] = "GY"
+    by[holder]["comps"].append({"name": "r1", "cls": "GX", "prefixes": [], "dims": [], "mods": [], "value": None})
+    by[holder]["comps"].append(real("h1"))
+    by[holder]["eqs"].append([["var", "h1"], ["bin", "-", ["var", "r1.gx1"], ["int", 2]]])
+    gb2 = {"id": "GB2", "parent": cont, "kind": "model", "extends": [], "ieqs": [],
+           "comps": [{"name": "r2", "cls": "GY", "prefixes": [], "dims": [], "mods": [], "value": None}, real("z")],
+           "eqs": [[["var", "z"], ["bin", "*", ["var", y_leaf], ["real", "2.5"]]]]}
+    if variant == "own_nested":
+        # a base class must be created before the class that extends it
+        classes.insert(classes.index(by["GM"]), gb2)
+    else:
+        classes.append(gb2)
+        order = ["GB1", "GB2"] if variant == "two_bases" else ["GB2", "GB1"]
+        model("GM", cont, [real("w")], [[["var", "w"], ["bin", "+", ["var", y_leaf], ["var", "r1.gx2"]]]], extends=order)
+    if draw(st.booleans()):
+        model("GT", cont, [{"name": "m1", "cls": "GM", "prefixes": [], "dims": [], "mods": [], "value": None},
+                           {"name": "m2", "cls": "GM", "prefixes": [], "dims": [], "mods": [], "value": None}],
+              [[["var", "m1.r1.gx2"], ["var", "m2.h1"]]])
+        return "GT"
+    return "GM"
 
 
 def foreign_nonportable(classes, b, scope_chain):
